@@ -23,6 +23,12 @@ CLAIMED = {
    design_ref='DESIGN.md section 4, C04',
    note='Trusted: Coq kernel + vm_compute, the hand-written model (bit-exact correspondence after every step of every history). The "no collinear vertex in a closed loop" clause is not a theorem (false for retraced outlines: known finding); the geometric reading of "crossing" rests on Segment3D::intersect (C19).',
    technique='Coq proof by induction over histories (instance-generic) + step-by-step model/code correspondence'),
+ 'C16': dict(
+   category='proof',
+   text='Flocq theorems for every binary format with >= 8 bits of precision (binary32/64 are instances) about the Gallina model of the *_with_error / *_propagate_error functions, with the bound itself evaluated in floating point: (S) vectors - the exact image under the stored matrix lies within the returned error, no extra factor; (S) points - proved with the factor 4/3(1+u) and REFUTED at factor 1 by a machine-checked binary64 witness built from translate.rotate_z.rotate_x (gamma(3) against four roundings); input boxes: factor (1+4u) for vectors, 4/3(1+3u) for points; (M) proved for the *_with_error functions, an upper bound isolating the |m_i3|(1+gamma3) excess proved for *_propagate_error and (M) REFUTED for them by the translate(1000,0,0) witness; (M) and the same (S) constants proved for the proposed translation-free repair; (R) over the reals: the ray origin moves forward along the direction, no point of its error box lies ahead of it (worst corner reached exactly), and it advances by at most the 2-norm of the reported error (Cauchy-Schwarz). The model is executed on primitive floats bit-for-bit against the crate (12 error-returning functions, random and adversarial operands); an exact-rational oracle re-checks (S)/(M)/(R) on the outputs; the two defects are recorded as classes in known_findings.json, anything outside them is a violation.',
+   design_ref='DESIGN.md section 4, C16; section 5 F9',
+   note='Trusted: Coq kernel + vm_compute, Flocq 4.1.0, the 4 classical/real stdlib axioms, the hand-written model (bit-exact correspondence, not proof), IEEE-754 conformance of rustc on x86-64. Guards of the float-tier theorems: reported error finite (implies no overflow/NaN anywhere), bottom row (0,0,0,1), no product m_ij*x_j in (0, 2^(emin+2prec)) (binary64: 2^-968; C16_S_underflow_refuted shows the guard is needed). Not proved: (S) at factor 1 for vec_propagate_error (edge case, no counterexample found); the float reading of (R) (sampled by the oracle with a rounding tolerance).',
+   technique='Coq/Flocq forward error analysis over all formats + vm_compute witnesses + bit-exact model/code correspondence'),
 }
 NOT_YET = 'check not built yet in this round (machinery under construction); see DESIGN.md section 4 for the planned Coq model and theorems'
 
